@@ -1503,6 +1503,16 @@ package main
 //@ ensures [C10] has(nestedOf(at.Attributes), "active") && act.Computed && act.Optional && !act.Required && act.Type == box(types.BoolType)
 
 // custom types: the entry is what the user's hook returns for the attribute the field would otherwise get
+// injected fields appear with their configured type and flags, at the root and inside nested messages (C10)
+//@ emits Schema when InjectRoot
+//@ define ia = result0.Attributes["id"]
+//@ ensures [C10] has(result0.Attributes, "id") && ia.Type == box(types.StringType) && ia.Computed && ia.Optional && !ia.Required
+//@ ensures [C10] len(ia.PlanModifiers) == 1 && ia.PlanModifiers[0] == tfsdk.UseStateForUnknown() && len(ia.Validators) == 1 && ia.Validators[0] == UseMockValidator()
+
+//@ emits Schema when InjectNested
+//@ define na = nestedOf(at.Attributes)["nid"]
+//@ ensures [C10] has(nestedOf(at.Attributes), "nid") && na.Type == box(types.StringType) && na.Required && !na.Optional && !na.Computed
+
 // custom types: the user's hook receives the attribute with the description and every flag, validator and
 // plan modifier the field would otherwise get (C17)
 //@ emits Schema when Kind == "Custom"
